@@ -171,6 +171,7 @@ func OpenReadWriteFile(f *os.File, roots []cid.Cid, opts ...carv2.Option) (*Read
 
 func (b *ReadWrite) initWithRoots(v2 bool, roots []cid.Cid) error {
 	if v2 {
+		internalio.VerifWrite("w", 0, carv2.Pragma)
 		if _, err := b.f.WriteAt(carv2.Pragma, 0); err != nil {
 			return err
 		}
